@@ -49,10 +49,28 @@ func coqAddr(a *AddrObs) string {
 
 var hosts = []string{"127.0.0.1", "10.0.0.1", "0.0.0.0", "::1", "::", "2001:db8::5", "192.168.1.255"}
 
+// host NAMES in port addresses: what they resolve to is a library oracle (the resolver's answer
+// for the name, asked by the harness itself); names the environment cannot resolve are left out
+var nameHosts = map[string]net.IP{}
+
+func init() {
+	for _, n := range []string{"localhost"} {
+		if a, err := net.ResolveTCPAddr("tcp", n+":1"); err == nil && a.IP != nil {
+			nameHosts[n] = a.IP
+			hosts = append(hosts, n)
+			portPool = append(portPool, "tcp/"+n+":80", "udp/"+n+":53", "tcp/"+n+":81")
+		}
+	}
+}
+
 func coqResolve() string {
 	var es []string
 	for _, h := range hosts {
-		es = append(es, fmt.Sprintf("(%s, Some %s)", hx.CoqStr(h), hx.CoqBytes(net.ParseIP(h).To16())))
+		ip := net.ParseIP(h)
+		if ip == nil {
+			ip = nameHosts[h]
+		}
+		es = append(es, fmt.Sprintf("(%s, Some %s)", hx.CoqStr(h), hx.CoqBytes(ip.To16())))
 	}
 	return hx.CoqList(es, "(str * option bytes)")
 }
